@@ -22,6 +22,9 @@ REPRESENTATIVE = ('adaptive_bounded_normal', 'ss_adaptive_bounded_normal', 'ss_a
                   'at_adaptive_normal_full', 'adaptive_bounded_eigenvector', 'adaptive_isotropic_solid_angle')
 
 
+MREPRESENTATIVE = ('at_adaptive_normal_full', 'at_cw_normal_full', 'adaptive_bounded_eigenvector', 'ss_adaptive_normal_fullcov_capped')
+
+
 NARROW = {'a': (0.0, 0.5), 'b': (0.0, 0.3)}
 
 
@@ -398,7 +401,7 @@ def run(seed, tier):
     for name in sorted(adaptm.MFAMILIES):
         for T in durations:
             for hk in hists:
-                if not thorough and T == 3000 and hk in ('alternate', 'random'):
+                if not thorough and T == 3000 and (hk in ('alternate', 'random') or name not in MREPRESENTATIVE):
                     continue
                 n = min(T + 5, 3200 if not thorough else 30100)
                 hist = adapt.history(hk, n, rng)
